@@ -87,6 +87,9 @@ pub struct Case {
     /// instead of a link change at step `at`: the client's source address changes there (NAT
     /// rebinding), so path validation runs while application datagrams are queued
     pub rebind: bool,
+    /// at step `at` this node closes the connection with a reason phrase far longer than a packet
+    /// (instead of a link change): the CONNECTION_CLOSE has to be cut to what the path carries
+    pub close_long: Option<usize>,
 }
 
 struct Limits {
@@ -237,6 +240,8 @@ pub fn run_case(base: Instant, c: &Case, dump: bool) -> (u64, Vec<(String, Strin
                 }
             }
             vec![(p.w.steps + (c.at - 10), Op::Rebind(CLIENT, crate::sim::addr(9)))]
+        } else if let Some(node) = c.close_long {
+            vec![(c.at, Op::CloseLong(node, 7, 4000))]
         } else {
             vec![(c.at, Op::LinkMtu(c.m1))]
         };
@@ -283,7 +288,7 @@ pub fn run_case(base: Instant, c: &Case, dump: bool) -> (u64, Vec<(String, Strin
                     }
                 }
             }
-            if !done {
+            if !done && c.close_long.is_none() {
                 let d = crate::scen::diagnose(&p);
                 for (s, w) in completion(&p) {
                     // with pad_to_mtu every packet, including pure ACKs, is padded to the MTU
@@ -327,7 +332,7 @@ pub fn main(args: &Args) -> ! {
                         if m0 == m1 && at != 0 {
                             continue;
                         }
-                        cases.push(Case { cfg: c.client.name.clone(), wl, m0, at, m1, rebind: false });
+                        cases.push(Case { cfg: c.client.name.clone(), wl, m0, at, m1, rebind: false, close_long: None });
                     }
                 }
             }
@@ -346,8 +351,29 @@ pub fn main(args: &Args) -> ! {
                     continue;
                 }
                 for at in (10..(if thorough { 80 } else { 44 })).step_by(if thorough { 1 } else { 2 }) {
-                    cases.push(Case { cfg: c.client.name.clone(), wl, m0: m, at, m1: m, rebind: true });
+                    cases.push(Case { cfg: c.client.name.clone(), wl, m0: m, at, m1: m, rebind: true, close_long: None });
                     n_rebind += 1;
+                }
+            }
+        }
+    }
+    // a close with a reason phrase longer than any packet, at every step, while acknowledgements are
+    // owed and data is in flight
+    let mut n_close = 0u64;
+    for c in cfgs() {
+        if c.client.name.contains("pathchanged") || c.client.name.starts_with("peer2") || c.client.name.starts_with("peer6") {
+            continue;
+        }
+        for wl in [Wl::W6, Wl::W5] {
+            for node in [CLIENT, SERVER] {
+                for m in [9000usize, 1452, 1200] {
+                    if m < c.client.initial_mtu as usize {
+                        continue;
+                    }
+                    for at in (4..(if thorough { 70 } else { 40 })).step_by(if thorough { 1 } else { 3 }) {
+                        cases.push(Case { cfg: c.client.name.clone(), wl, m0: m, at, m1: m, rebind: false, close_long: Some(node) });
+                        n_close += 1;
+                    }
                 }
             }
         }
@@ -358,7 +384,7 @@ pub fn main(args: &Args) -> ! {
     let mut probes = 0u64;
     let mut baselines = BTreeMap::new();
     for (c, (tr, _, _)) in &res {
-        if c.m0 == 9000 && c.m1 == 9000 && !c.rebind {
+        if c.m0 == 9000 && c.m1 == 9000 && !c.rebind && c.close_long.is_none() {
             baselines.insert((c.cfg.clone(), c.wl), *tr);
         }
     }
@@ -371,12 +397,12 @@ pub fn main(args: &Args) -> ! {
         for (sig, what) in v {
             rep.violation(Violation {
                 signature: sig.clone(),
-                what: format!("cfg={} wl={:?} link MTU {} -> {} at step {}{}: {what}", c.cfg, c.wl, c.m0, c.m1, c.at, if c.rebind { " (client address change there instead)" } else { "" }),
-                replay: json!({"check":"c13","cfg":c.cfg,"wl":format!("{:?}",c.wl),"m0":c.m0,"at":c.at,"m1":c.m1,"rebind":c.rebind}),
+                what: format!("cfg={} wl={:?} link MTU {} -> {} at step {}{}: {what}", c.cfg, c.wl, c.m0, c.m1, c.at, if c.rebind { " (client address change there instead)" } else if c.close_long.is_some() { " (close with a 4000-byte reason there instead)" } else { "" }),
+                replay: json!({"check":"c13","cfg":c.cfg,"wl":format!("{:?}",c.wl),"m0":c.m0,"at":c.at,"m1":c.m1,"rebind":c.rebind,"close_long":c.close_long}),
             });
         }
     }
-    rep.part("link_mtu_triples", json!({"cases": total, "executed": res.len(), "mtu_probes_observed": probes, "client_address_change_cases": n_rebind, "capped": capped}));
+    rep.part("link_mtu_triples", json!({"cases": total, "executed": res.len(), "mtu_probes_observed": probes, "client_address_change_cases": n_rebind, "long_close_reason_cases": n_close, "capped": capped}));
     if probes == 0 {
         machinery("vacuity guard: no MTU probe was ever observed");
     }
@@ -400,6 +426,7 @@ fn replay(args: &Args) -> ! {
         at: r["at"].as_u64().unwrap(),
         m1: r["m1"].as_u64().unwrap() as usize,
         rebind: r["rebind"].as_bool().unwrap_or(false),
+        close_long: r["close_long"].as_u64().map(|x| x as usize),
     };
     let (_, v, probes) = run_case(Instant::now(), &c, true);
     println!("violations={v:?} probes={probes}");
